@@ -70,7 +70,7 @@ def run_job(spec):
 # --------------------------------------------------------------------------- history jobs
 def _alpha(spec):
     a = spec.get("alpha", "short")
-    return {"short": SHORT, "long": LONG, "tiny": (b"a", b"b"), "abc": (b"a", b"b", b"c"), "abcd": (b"a", b"b", b"c", b"d", b"ab")}[a]
+    return {"short": SHORT, "long": LONG, "tiny": (b"a", b"b"), "sameblock": (b"S" * 80 + b"c", b"S" * 80 + b"f", b"S" * 80 + b"m", b"S" * 74 + b"z", b"S" * 74, b"a"), "abc": (b"a", b"b", b"c"), "abcd": (b"a", b"b", b"c", b"d", b"ab")}[a]
 
 
 def job_hist(spec, res):
